@@ -75,7 +75,8 @@ PROPS["C01"] = {
         {"module": "MC_Opt", "constants": {"Small": q(tier, "TRUE", "FALSE"), "Universe": '"B"'},
          "invariants": ["NoPanic", "DenStable", "EngInLang", "Emit"], "forms": ["mc_opt"], "workers": 12},
     ],
-    "gens": lambda tier: [{"topic": "opt", "n": q(tier, 700, 12000)}, {"topic": "big", "n": q(tier, 4, 16)}],
+    "gens": lambda tier: [{"topic": "opt", "n": q(tier, 700, 12000)}, {"topic": "big", "n": q(tier, 4, 16)},
+                          {"topic": "samef", "n": q(tier, 150, 3000)}],
     "rules": ["den", "opt_panic", "match_panic", "reopt_differs"],
     "chunk": 300,
 }
